@@ -141,6 +141,8 @@ def monitor(c):
 
 
 def run(ctx, out):
+    import families, random as _random
+    out.evaluations += families.noninit_tuple_family(out, PROP, _random.Random(ctx['seed']))
     out.rule = ('types (all constructors of the grammar, equivalent spellings chosen at random: List/list/MutableSequence, Tuple[T,...]/'
                 'Sequence, Optional/Union/|, typing vs collections.abc ...) x values (valid / near-valid / arbitrary). Checks on pane: '
                 'the result is the deep exactly-typed image (runtime classes at every depth, enum members, instances with converted '
